@@ -239,7 +239,16 @@ impl Visitor<Diagnostic> for LibraryRenderer {
         node: &DurationLiteral,
     ) -> Result<Self::Value, Diagnostic> {
         // Always write out as milliseconds. The largest unit is allowed to be "out of range"
-        let val = format!("TIME#{}ms", node.interval.whole_milliseconds());
+        let nanos = node.interval.whole_nanoseconds();
+        let sign = if nanos < 0 { "-" } else { "" };
+        let millis = nanos.unsigned_abs() / 1_000_000;
+        let fraction = nanos.unsigned_abs() % 1_000_000;
+        let val = if fraction == 0 {
+            format!("TIME#{}{}ms", sign, millis)
+        } else {
+            let digits = format!("{:0>6}", fraction);
+            format!("TIME#{}{}.{}ms", sign, millis, digits.trim_end_matches('0'))
+        };
         self.write_ws(val.as_str());
         Ok(())
     }
